@@ -608,7 +608,8 @@ fn parse_tlv<'a>(state: &mut Parser<'a>) -> Result<TLV<'a>> {
 	}
 
 	// Padding for the Value
-	words = &words[key.len().align_to(2) + 4..];
+	// The length does not contain padding if the Value and Children are absent
+	words = &words[cmp::min(key.len().align_to(2) + 4, words.len())..];
 
 	// Split the remaining words between the Value and Children
 	if value_length > words.len() {
